@@ -107,6 +107,23 @@ def run_shard(pid, tier, seed, shard, nshards, n_examples, out_path):
             if len(common.jdump(case)) < len(common.jdump(b["case"])):
                 b["case"], b["msg"] = case, v["msg"]
 
+    def dump_stats():
+        out = dict(stats)
+        out["nontrivial_hashes"] = sorted(stats["nontrivial_hashes"])
+        out["wall_s"] = time.time() - t0
+        with open(out_path, "w") as f:
+            f.write(common.jdump(out))
+
+    def on_stall(msg):
+        case = LAST_CASE[0]
+        res = common.Result()
+        res.violate("stall", msg)
+        record(case, res)
+        dump_stats()
+        os._exit(0)
+
+    common.STALL_HOOK[0] = on_stall
+
     # Pinned cases first (regressions of fixed findings, replays), bypassing Hypothesis
     for name, case in getattr(prop, "pinned_cases", lambda ctx: [])(ctx):
         res = safe_check(prop, case)
@@ -127,7 +144,7 @@ def run_shard(pid, tier, seed, shard, nshards, n_examples, out_path):
 
     # Pass B: shrink each new (unknown) bucket, at most two per shard
     new_buckets = [b for b, v in stats["violations"].items() if not v["known"]]
-    shrink_budget_s = 45.0 if tier == "quick" else 240.0
+    shrink_budget_s = float(os.environ.get("VERIF_SHRINK_S", 45.0 if tier == "quick" else 240.0))
     for bucket in new_buckets[:2]:
         best = {"case": stats["violations"][bucket]["case"], "msg": None}
         t_start = time.time()
